@@ -120,8 +120,19 @@ impl Sysline {
     pub uninterp spec fn dt_spec(&self) -> DateTimeL;
     #[verifier::external_body]
     pub fn dt(&self) -> (r: &DateTimeL) ensures *r == self.dt_spec() { unimplemented!() }
+    pub uninterp spec fn beg_spec(&self) -> int;
+    pub uninterp spec fn end_spec(&self) -> int;
+    #[verifier::external_body]
+    pub fn fileoffset_begin(&self) -> (r: FileOffset) ensures r as int == self.beg_spec() { unimplemented!() }
+    #[verifier::external_body]
+    pub fn fileoffset_end(&self) -> (r: FileOffset) ensures r as int == self.end_spec() { unimplemented!() }
+    #[verifier::external_body]
+    pub fn fileoffset_next(&self) -> (r: FileOffset) requires self.end_spec() < u64::MAX ensures r as int == self.end_spec() + 1 { unimplemented!() }
 }
 pub type ResultS3SyslineFind = ResultS3<(FileOffset, SyslineP), Error>;
+pub fn min(a: FileOffset, b: FileOffset) -> (r: FileOffset) ensures r == (if a <= b { a } else { b }) { if a <= b { a } else { b } }  // stand-in for std::cmp::min
+pub fn max(a: FileOffset, b: FileOffset) -> (r: FileOffset) ensures r == (if a >= b { a } else { b }) { if a >= b { a } else { b } }  // stand-in for std::cmp::max
+impl<T, E> ResultS3<T, E> { pub fn is_done(&self) -> (r: bool) ensures r == (*self is Done) { matches!(*self, ResultS3::Done) } }
 
 //@cut fn path=src/data/datetime.rs name=dt_after_or_before ret=r
 //@spec
@@ -148,10 +159,15 @@ impl SyslineReader {
     pub uninterp spec fn model(&self) -> Seq<SL>;
     pub uninterp spec fn fsz(&self) -> int;
     pub uninterp spec fn streamed(&self) -> bool;
+    /// ghost: the underlying reader reported an I/O error at some point
+    pub uninterp spec fn io_err(&self) -> bool;
     pub open spec fn same(&self, o: &Self) -> bool { self.model() == o.model() && self.fsz() == o.fsz() && self.streamed() == o.streamed() }
     pub open spec fn wf(&self) -> bool { model_wf(self.model(), self.fsz()) }
+    /// every message starts with a line that holds a datetime, so it has at least two bytes (DATETIME_STR_MIN = 8)
+    pub open spec fn msgs_ok(&self) -> bool { forall|i: int| 0 <= i < self.model().len() ==> (#[trigger] self.model()[i]).beg < self.model()[i].end }
     /// a Sysline value handed out by this reader is message `idx` of the model and carries its instant
-    pub open spec fn is_msg(&self, s: &SyslineP, j: int) -> bool { 0 <= j < self.model().len() && s.idx() == j && instant(s.dt_spec()) == self.model()[j].t }
+    pub open spec fn is_msg(&self, s: &SyslineP, j: int) -> bool { 0 <= j < self.model().len() && s.idx() == j && instant(s.dt_spec()) == self.model()[j].t
+        && s.beg_spec() == self.model()[j].beg && s.end_spec() == self.model()[j].end }
 
     #[verifier::external_body]
     pub fn find_sysline(&mut self, fileoffset: FileOffset) -> (r: ResultS3SyslineFind)
@@ -164,9 +180,14 @@ impl SyslineReader {
                 old(self).is_msg(&r->Found_0.1, j) && r->Found_0.0 as int == old(self).model()[j].end + 1
             }),
             r is Done ==> fileoffset as int >= old(self).fsz() || old(self).model().len() == 0,
+            final(self).io_err() == (old(self).io_err() || r is Err),
     { unimplemented!() }
     #[verifier::external_body]
     pub fn is_streamed_file(&self) -> (r: bool) ensures r == self.streamed() { unimplemented!() }
+    #[verifier::external_body]
+    pub fn filesz(&self) -> (r: FileSz) ensures r as int == self.fsz() { unimplemented!() }
+    #[verifier::external_body]
+    pub fn is_sysline_last(&self, syslinep: &SyslineP) -> (r: bool) ensures r == (syslinep.end_spec() == self.fsz() - 1) { unimplemented!() }
     #[verifier::external_body]
     pub fn debug_assert_gt_fo_syslineend(fo: &FileOffset, syslinep: &SyslineP) { }
 
@@ -233,37 +254,150 @@ impl SyslineReader {
 }
 
 impl SyslineReader {
-    // binary search: same contract as the linear search (both find the first message at/after the offset with instant >= A).
-    // ASSUMED here; decided separately (bounded) by the Kani stand-in of unit SRCHB until its Verus proof closes.
-    #[verifier::external_body]
-    pub fn find_sysline_at_datetime_filter_binary_search(&mut self, fileoffset: FileOffset, dt_filter: &DateTimeLOpt) -> (r: ResultS3SyslineFind)
-        requires old(self).wf()
-        ensures
-            final(self).same(old(self)),
-            r is Found ==> ({
-                let j = first_from(old(self).model(), oi(*dt_filter), fileoffset as int, 0);
-                old(self).is_msg(&r->Found_0.1, j) && r->Found_0.0 as int == old(self).model()[j].end + 1
-            }),
-            r is Done ==> first_from(old(self).model(), oi(*dt_filter), fileoffset as int, 0) == old(self).model().len(),
-    { unimplemented!() }
-
+//@cut fn path=src/readers/syslinereader.rs impl=SyslineReader name=find_sysline_at_datetime_filter_binary_search ret=r rlimit=300
+//@replace "pub fn find_sysline_at_datetime_filter_binary_search" "#[verifier::exec_allows_no_decreases_clause] pub fn find_sysline_at_datetime_filter_binary_search"
+//@spec
+    requires
+        old(self).wf(), fileoffset as int <= old(self).fsz(), old(self).msgs_ok(),
+    ensures
+        final(self).same(old(self)),
+        // C03 (partial correctness; an I/O error of the reader ends the search with Done: excluded): the first message at or after
+        // `fileoffset` whose instant is >= A -- the same contract as the linear search
+        r is Found ==> ({
+            let j = first_from(old(self).model(), oi(*dt_filter), fileoffset as int, 0);
+            old(self).is_msg(&r->Found_0.1, j) && r->Found_0.0 as int == old(self).model()[j].end + 1
+        }),
+        r is Done && !final(self).io_err() ==> first_from(old(self).model(), oi(*dt_filter), fileoffset as int, 0) == old(self).model().len(),
+//@at_entry
+        let ghost m = self.model();
+        let ghost a = oi(*dt_filter);
+        let ghost fsz = self.fsz();
+        let ghost sp0 = *self;
+        let ghost tt = first_from(m, a, fileoffset as int, 0);
+        let ghost k0 = cover(m, fileoffset as int, 0);
+        let ghost mut started: bool = false;
+        proof { lemma_first_from(m, a, fileoffset as int, 0); lemma_cover(m, fileoffset as int, 0); }
+//@loop 1
+            invariant_except_break
+                fileoffset <= fo_a <= try_fo <= fo_b, fo_b as int <= fsz,
+                tt < m.len() ==> fo_a as int <= m[tt].end && m[tt].beg <= fo_b as int,
+                tt == m.len() ==> fo_b as int == fsz,
+                first ==> try_fo == fileoffset && fo_a == fileoffset && fo_b as int == fsz && !started,
+                !first && !started ==> m.len() == 0,
+                started ==> a is Some && (tt < m.len() ==> m[tt].beg >= fo_a as int) && (k0 < tt || tt == m.len()) && m.len() > 0,
+            invariant
+                self.same(&sp0), sp0.same(old(self)), self.wf(), m == self.model(), fsz == self.fsz(), a == oi(*dt_filter), fo_end as int == fsz,
+                forall|i: int| 0 <= i < m.len() ==> (#[trigger] m[i]).beg < m[i].end,
+                tt == first_from(m, a, fileoffset as int, 0), k0 == cover(m, fileoffset as int, 0), 0 <= k0 <= tt <= m.len(),
+                self.io_err() == (old(self).io_err() || erred),
+            ensures
+                !erred ==> tt == m.len(),
+//@before "let mut fo_a: FileOffset = fileoffset;"
+        let ghost mut first: bool = true;
+        let ghost mut erred: bool = false;
+//@after "let done = result.is_done();"
+            let ghost j = cover(m, try_fo as int, 0);
+            let ghost mut kind: int = 0;
+            let ghost fo_a0 = fo_a;
+            let ghost fo_b0 = fo_b;
+            let ghost was_first = first;
+            proof {
+                lemma_cover(m, try_fo as int, 0);
+                lemma_first_from(m, a, fileoffset as int, 0);
+                lemma_cover(m, fileoffset as int, 0);
+                first = false;
+                if result is Found { lemma_cover_mono(m, fileoffset as int, try_fo as int); }
+                if result is Err { erred = true; }
+            }
+//@before "SyslineReader::debug_assert_gt_fo_syslineend(&fo, &syslinep);" 1
+                            proof { assert(was_first); lemma_ff_found(m, a, fsz, fileoffset as int, k0, 0); }
+//@before "SyslineReader::debug_assert_gt_fo_syslineend(&fo, &syslinep);" 2
+                                proof { lemma_ff_found(m, a, fsz, fileoffset as int, k0, 0); }
+//@before "try_fo_last = try_fo;" 1
+                            proof {
+                                // the probed message is at or after A: it is message tt or a later one
+                                assert(!was_first);
+                                assert(j >= tt);
+                                if j > tt { lemma_ends(m, fsz, tt, j); lemma_begs(m, fsz, tt, j); }
+                                if tt > 0 { assert(m[(tt - 1) + 1].beg == m[tt - 1].end + 1); }
+                                kind = 1;
+                            }
+//@after "let syslinep_foe: FileOffset = (*syslinep).fileoffset_end();"
+                            proof {
+                                // the probed message is before A: it comes before message tt
+                                assert(a is Some);
+                                if j >= tt && tt < m.len() { assert(m[tt].t <= m[j].t); }
+                                assert(j < tt);
+                                if tt < m.len() { lemma_ends(m, fsz, j, tt); lemma_begs(m, fsz, j, tt); }
+                                kind = 2; started = true;
+                            }
+//@before "try_fo_last = try_fo;" 3
+                    proof { kind = 3; }
+//@before "if done && try_fo == try_fo_last {"
+            proof {
+                if kind == 1 { started = true; }
+                if kind == 3 && m.len() > 0 {
+                    // Done on a file with messages: the probe was at the end of the file; the cursors have met or the loop stops
+                    assert(try_fo_last as int >= fsz);
+                    if try_fo == try_fo_last && tt < m.len() { assert(m[tt].end < fsz); }
+                }
+            }
+//@before "let mut syslinep = syslinep_opt.unwrap();"
+            proof {
+                // the probe did not move: the cursors have met
+                let pp = try_fo_last as int;
+                assert(0 <= j < m.len());
+                if kind == 1 {
+                    assert(fo_b as int <= pp);
+                    assert(fo_a == fo_b && fo_b as int == pp);
+                    assert(m[tt].beg <= pp <= m[tt].end);
+                    if tt > 0 { assert(m[(tt - 1) + 1].beg == m[tt - 1].end + 1); }
+                    assert(j == tt);
+                    assert(m[j].beg == pp);
+                } else {
+                    assert(kind == 2);
+                    if fo_a as int == m[j].end {
+                        assert(m[j].end == pp);
+                        assert(fo_b as int <= pp + 1);
+                        if tt < m.len() { assert(m[j + 1].beg == m[j].end + 1); if j + 1 < tt { lemma_begs(m, fsz, j + 1, tt); } assert(tt == j + 1); }
+                        else { lemma_last(m, fsz, j); assert(tt == j + 1); }
+                    } else {
+                        assert(fo_a == fo_b && fo_b as int == pp);
+                        if tt < m.len() { assert(m[tt].beg <= pp <= m[tt].end); if tt > 0 { assert(m[(tt - 1) + 1].beg == m[tt - 1].end + 1); } assert(j == tt); }
+                        assert(false);
+                    }
+                    assert(tt == j + 1 && m[j].end == pp && m[j].beg < pp);
+                }
+            }
+//@before "let fo_next: FileOffset = syslinep.fileoffset_next();"
+            proof { if kind == 2 { lemma_last(m, fsz, j); assert(tt < m.len()); lemma_cover_succ(m, fsz, j); } }
+//@before "break;" 3
+                        proof { assert(false); }
+//@before "break;" 4
+                        proof { erred = true; }
+//@before "break;" 5
+                        proof { assert(false); }
+//@before "break;" 6
+                        proof { assert(false); }
+//@end
 //@cut fn path=src/readers/syslinereader.rs impl=SyslineReader name=find_sysline_at_datetime_filter ret=r
 //@replace "self.linereader.blockreader.is_streamed_file()" "self.is_streamed_file()"
 //@spec
-    requires old(self).wf()
+    requires old(self).wf(), fileoffset as int <= old(self).fsz(), old(self).msgs_ok(),
     ensures
         final(self).same(old(self)),
         r is Found ==> ({
             let j = first_from(old(self).model(), oi(*dt_filter), fileoffset as int, 0);
             old(self).is_msg(&r->Found_0.1, j) && r->Found_0.0 as int == old(self).model()[j].end + 1
         }),
-        r is Done ==> first_from(old(self).model(), oi(*dt_filter), fileoffset as int, 0) == old(self).model().len(),
+        // (the binary search ends with Done when the reader reports an I/O error: excluded)
+        r is Done && !final(self).io_err() ==> first_from(old(self).model(), oi(*dt_filter), fileoffset as int, 0) == old(self).model().len(),
 //@end
 
 //@cut fn path=src/readers/syslinereader.rs impl=SyslineReader name=find_sysline_between_datetime_filters ret=r
 //@spec
     requires
-        old(self).wf(),
+        old(self).wf(), fileoffset as int <= old(self).fsz(), old(self).msgs_ok(),
         (dt_filter_after is Some && dt_filter_before is Some) ==> instant(dt_filter_after.unwrap()) <= instant(dt_filter_before.unwrap()),
     ensures
         final(self).same(old(self)),
@@ -274,7 +408,7 @@ impl SyslineReader {
             j < old(self).model().len() && le_b(old(self).model()[j].t, oi(*dt_filter_before))
                 && old(self).is_msg(&r->Found_0.1, j) && r->Found_0.0 as int == old(self).model()[j].end + 1
         }),
-        r is Done ==> ({
+        r is Done && !final(self).io_err() ==> ({
             let j = first_from(old(self).model(), oi(*dt_filter_after), fileoffset as int, 0);
             j == old(self).model().len() || !le_b(old(self).model()[j].t, oi(*dt_filter_before))
         }),
@@ -284,6 +418,41 @@ impl SyslineReader {
 //@end
 }
 
+/// the covering index is monotone in the offset
+pub proof fn lemma_cover_mono(m: Seq<SL>, fo1: int, fo2: int)
+    requires fo1 <= fo2
+    ensures cover(m, fo1, 0) <= cover(m, fo2, 0)
+{
+    lemma_cover(m, fo1, 0); lemma_cover(m, fo2, 0);
+    let c1 = cover(m, fo1, 0); let c2 = cover(m, fo2, 0);
+    if c2 < c1 { assert(m[c2].end >= fo2); assert(m[c2].end < fo1); }
+}
+/// the message that ends at the last byte of the file is the last message
+pub proof fn lemma_last(m: Seq<SL>, filesz: int, j: int)
+    requires model_wf(m, filesz), 0 <= j < m.len()
+    ensures m[j].end == filesz - 1 <==> j == m.len() - 1, m[j].end >= filesz - 1 ==> j == m.len() - 1
+{
+    if j < m.len() - 1 { lemma_ends(m, filesz, j, m.len() - 1); }
+}
+pub proof fn lemma_cover_succ(m: Seq<SL>, filesz: int, j: int)
+    requires model_wf(m, filesz), 0 <= j < m.len() - 1
+    ensures cover(m, m[j].end + 1, 0) == j + 1
+{
+    let fo = m[j].end + 1;
+    lemma_cover(m, fo, 0);
+    let c = cover(m, fo, 0);
+    assert(m[j + 1].beg == m[j].end + 1);
+    if c > j + 1 { assert(m[j + 1].end < fo); }
+    if c <= j { if c < j { lemma_ends(m, filesz, c, j); } assert(m[c].end <= m[j].end); }
+}
+pub proof fn lemma_begs(m: Seq<SL>, filesz: int, c: int, k: int)
+    requires model_wf(m, filesz), 0 <= c < k < m.len()
+    ensures m[k].beg > m[c].end, m[k].beg > m[c].beg
+    decreases k - c
+{
+    if c + 1 < k { lemma_begs(m, filesz, c, k - 1); assert(m[(k - 1) + 1].beg == m[k - 1].end + 1); }
+    else { assert(m[c + 1].beg == m[c].end + 1); }
+}
 pub proof fn lemma_ff_found(m: Seq<SL>, a: Option<int>, filesz: int, fo: int, k: int, i: int)
     requires model_wf(m, filesz), 0 <= k < m.len(), 0 <= i <= k, forall|q: int| 0 <= q < k ==> (#[trigger] m[q]).end < fo, m[k].end >= fo, ge_a(m[k].t, a)
     ensures first_from(m, a, fo, i) == k
